@@ -295,6 +295,7 @@ func runGsm7(c Case, tr *Tracer) {
 			tr.emit(Ev{"ev": "DecPacked", "s": B(s), "o": B(packed), "out": scalars(string(out)), "err": err != nil, "panic": p, "site": "GSM7Packed.Decode"})
 			p = guard(func() { out, _, err = transform.Bytes(gsm7.GSM7(true).NewDecoder(), packed) })
 			tr.emit(Ev{"ev": "DecPacked", "s": B(s), "o": B(packed), "out": scalars(string(out)), "err": err != nil, "panic": p, "site": "GSM7(true).Decoder"})
+			_ = gsm7.GSM7(false).NewDecoder() // (somebody else makes a decoder of the other flavour in between)
 			p = guard(func() { out, _, err = transform.Bytes(reusedDecP, packed) })
 			tr.emit(Ev{"ev": "DecPacked", "s": B(s), "o": B(packed), "out": scalars(string(out)), "err": err != nil, "panic": p, "site": "GSM7(true).Decoder.reused"})
 		}
@@ -331,6 +332,7 @@ func runGsm7(c Case, tr *Tracer) {
 			out = nil
 		}
 		tr.emit(Ev{"ev": "Enc", "text": sc, "out": B(out), "err": err2 != nil, "site": "GSM7(false).Encoder"})
+		_ = gsm7.GSM7(true).NewEncoder()
 		out, _, err2 = transform.Bytes(reusedEncU, []byte(text))
 		if err2 != nil {
 			out = nil
@@ -366,6 +368,7 @@ func runGsm7(c Case, tr *Tracer) {
 			out = nil
 		}
 		tr.emit(Ev{"ev": "EncPacked", "text": sc, "out": B(out), "err": err2 != nil, "site": "GSM7(true).Encoder"})
+		_ = gsm7.GSM7(false).NewEncoder()
 		out, _, err2 = transform.Bytes(reusedEncP, []byte(text))
 		if err2 != nil {
 			out = nil
@@ -414,6 +417,7 @@ func runGsm7(c Case, tr *Tracer) {
 			dec = nil
 		}
 		tr.emit(Ev{"ev": "Dec", "s": B(s), "out": scalars(string(dec)), "err": err != nil, "site": "GSM7(false).Decoder"})
+		_, _ = gsm7.GSM7(true).NewDecoder(), gsm7.GSM7(true).NewEncoder()
 		dec, _, err = transform.Bytes(reusedDecU, s)
 		if err != nil {
 			dec = nil
